@@ -3,7 +3,6 @@ package markdown
 import (
 	"bufio"
 	"bytes"
-	"context"
 	"fmt"
 	"html"
 	"io"
@@ -32,7 +31,7 @@ type PostProcessor func(src string) string
 // Markdown parses GFM markdown and renders block elements through vuego templates.
 type Markdown struct {
 	contentFS      fs.FS
-	tpl            vuego.Template
+	vue            *vuego.Vue
 	parser         parser.Parser
 	postProcessors map[string]PostProcessor
 }
@@ -66,7 +65,7 @@ func New(contentFS fs.FS) *Markdown {
 
 	return &Markdown{
 		contentFS:      contentFS,
-		tpl:            vuego.NewFS(tplFS),
+		vue:            vuego.NewVue(tplFS),
 		parser:         md.Parser(),
 		postProcessors: make(map[string]PostProcessor),
 	}
@@ -414,8 +413,10 @@ func (m *Markdown) inlineContent(node ast.Node, src []byte) string {
 // renderTemplate renders a vuego template with data, applying any registered post-processor.
 func (m *Markdown) renderTemplate(w io.Writer, name string, data map[string]any) error {
 	var buf bytes.Buffer
-	tpl := m.tpl.Load("markdown/" + name + ".vuego").Fill(data)
-	if err := tpl.Render(context.Background(), &buf); err != nil {
+	// The node templates are fragments. They are rendered as such: rendered as
+	// pages, each of them would be wrapped in the site's layouts/base.vuego and
+	// see its theme.yml when the content filesystem is a site's own directory.
+	if err := m.vue.Render(&buf, "markdown/"+name+".vuego", data); err != nil {
 		return fmt.Errorf("rendering %s template: %w", name, err)
 	}
 
